@@ -403,7 +403,9 @@ class SymNP(types.ModuleType):
 
     def angle(self, z, deg=False):
         if active() and is_sym(z):
-            raise OutsideBound('np.angle on symbolic data')
+            if deg:
+                raise OutsideBound('np.angle(deg=True) on symbolic data')
+            return elementwise(uf.angle, z)
         return _np.angle(z, deg)
 
     def arange(self, *args, **kw):
@@ -556,6 +558,9 @@ class SymMath(types.ModuleType):
     def sqrt(self, x):
         if isinstance(x, PROXY):
             return _r(x).sqrt()
+        if EXACT_CONST_SQRT and active() and isinstance(
+                x, (int, float)) and x >= 0:
+            return SReal(x).sqrt()
         return _math.sqrt(x)
 
     def log10(self, x):
@@ -689,6 +694,10 @@ def sym_max(*a, **kw):
         return m
     return builtins.max(*a, **kw)
 
+
+# opt-in idealisation: math.sqrt(<python number>) is the exact algebraic
+# number (atom s, s*s = c) while a symbolic context is active
+EXACT_CONST_SQRT = False
 
 NP = SymNP()
 MATH = SymMath()
